@@ -359,9 +359,13 @@ def truncatewords(val: str, num: Any = 15, end: str = "...") -> str:
 @string_filter
 def url_encode(val: str, *, environment: Environment) -> str:
     """Return a percent-encoded copy of _val_ so it is useable in a URL."""
-    if environment.autoescape:
-        return Markup(urllib.parse.quote_plus(val))
-    return urllib.parse.quote_plus(val)
+    try:
+        if environment.autoescape:
+            return Markup(urllib.parse.quote_plus(val))
+        return urllib.parse.quote_plus(val)
+    except UnicodeEncodeError as err:
+        # lone surrogates
+        raise FilterError("can't encode string as UTF-8", token=None) from err
 
 
 @string_filter
@@ -374,7 +378,11 @@ def url_decode(val: str) -> str:
 @string_filter
 def base64_encode(val: str) -> str:
     """Return _val_ encoded in base64."""
-    return base64.b64encode(val.encode()).decode()
+    try:
+        return base64.b64encode(val.encode()).decode()
+    except UnicodeEncodeError as err:
+        # lone surrogates
+        raise FilterError("can't encode string as UTF-8", token=None) from err
 
 
 @string_filter
@@ -385,14 +393,19 @@ def base64_decode(val: str) -> str:
     """
     try:
         return base64.b64decode(val).decode()
-    except binascii.Error as err:
+    except (binascii.Error, ValueError) as err:
+        # ValueError: non-ASCII input; UnicodeDecodeError: the decoded bytes are not UTF-8
         raise FilterError("invalid base64-encoded string", token=None) from err
 
 
 @string_filter
 def base64_url_safe_encode(val: str) -> str:
     """Return _val_ encoded in URL-safe base64."""
-    return base64.urlsafe_b64encode(val.encode()).decode()
+    try:
+        return base64.urlsafe_b64encode(val.encode()).decode()
+    except UnicodeEncodeError as err:
+        # lone surrogates
+        raise FilterError("can't encode string as UTF-8", token=None) from err
 
 
 @string_filter
@@ -403,7 +416,7 @@ def base64_url_safe_decode(val: str) -> str:
     """
     try:
         return base64.urlsafe_b64decode(val).decode()
-    except binascii.Error as err:
+    except (binascii.Error, ValueError) as err:
         raise FilterError("invalid base64-encoded string", token=None) from err
 
 
